@@ -1,35 +1,134 @@
-(* Correspondence for C03 (stage 1: routing facts only). *)
-From stdpp Require Import gmap.
+(* Correspondence for C03.  A case = the shard count N, the routing facts the harness observed
+   by probing a real N-shard instance for the keys of the case, and (for sequences inside the
+   modelled command subset) the request sequence with every reply of the real N-shard and of the
+   real 1-shard instance.  The dispatcher model over Model/MiniKV.v must reproduce both reply
+   lists; the routing model must reproduce the observed facts and the raw hash values. *)
+From stdpp Require Import gmap sorting.
 From Coq Require Export NArith ZArith String.
-From RV Require Export Lib.Hex Lib.SipHash Lib.SipHashFast Model.Shard Corr.Common.
+From RV Require Export Lib.Hex Lib.SipHash Lib.SipHashFast Model.Shard Model.MiniKV Corr.Common.
 Local Open Scope N_scope.
 
-Inductive reply := RS (s : string) | RE (s : string) | RI (z : Z) | RB (o : option string) | RA (o : option (list reply)).
-Inductive arg := A0 | AB (b : string) | AL (l : list string) | AD (f t : bool).
-Inductive cmd :=
-| Ping (m : option string) | Flush (all : bool) | Keys (p : string) | MGet (ks : list string)
-| MSet (kvs : list (string * string)) | DbSize | Scan (c : N) (p : option string) (n : option N)
-| Del (ks : list string) | Exists (ks : list string) | Op (tag : string) (ks : list string) (a : arg).
-Inductive req := G (c : cmd) | FG (k : string) | PG (k : string) | FS (k v : string) | PS (k v : string)
-| BG (ks : list string) | BS (kvs : list (string * string)).
+(* ---- what the harness prints (byte strings as hex literals) *)
+Definition RS (s : string) : reply := RSimple (unhex s).
+Definition RE (s : string) : reply := RErr (unhex s).
+Definition RI (z : Z) : reply := RInt z.
+Definition RB (o : option string) : reply := RBulk (option_map unhex o).
+Definition RA (o : option (list reply)) : reply := RArr o.
 
-(* key, other key, in shard 0 via execute / via fast path, same home on both paths,
-   co-located with [other] execute/execute and execute/fast, DefaultHasher of the str / of the [u8] *)
+Definition A0 : arg := ArgNone.
+Definition AB (b : string) : arg := ArgB (unhex b).
+Definition AL (l : list string) : arg := ArgL (map unhex l).
+Definition AD (f t : bool) : arg := ArgDir f t.
+
+Definition uh2 (kv : string * string) : key * bytes := (unhex kv.1, unhex kv.2).
+Definition Ping (m : option string) : cmd arg := CPing (option_map unhex m).
+Definition Flush (all : bool) : cmd arg := CFlush all.
+Definition Keys (p : string) : cmd arg := CKeys (unhex p).
+Definition MGet (ks : list string) : cmd arg := CMGet (map unhex ks).
+Definition MSet (kvs : list (string * string)) : cmd arg := CMSet (map uh2 kvs).
+Definition DbSize : cmd arg := CDbSize.
+Definition Scan (c : N) (p : option string) (n : option N) : cmd arg := CScan c (option_map unhex p) n.
+Definition Del (ks : list string) : cmd arg := CDel (map unhex ks).
+Definition Exs (ks : list string) : cmd arg := CExists (map unhex ks).
+Definition Op (tag : string) (ks : list string) (a : arg) : cmd arg := COp tag (map unhex ks) a.
+
+Definition G (c : cmd arg) : req arg := Generic c.
+Definition FG (k : string) : req arg := FastGet false (unhex k).
+Definition PG (k : string) : req arg := FastGet true (unhex k).
+Definition FS (k v : string) : req arg := FastSet false (unhex k) (unhex v).
+Definition PS (k v : string) : req arg := FastSet true (unhex k) (unhex v).
+Definition BG (ks : list string) : req arg := PipeGet (map unhex ks).
+Definition BS (kvs : list (string * string)) : req arg := PipeSet (map uh2 kvs).
+
+(* key, other key; observed on a real N-shard instance: key in shard 0 when written through
+   execute / through fast_set; execute and fast_set put the key in the same shard; key
+   co-located with [other] written through execute / through fast_set; DefaultHasher value of
+   the key as a str / as a [u8] *)
 Inductive rfact := RF (k o : string) (in0g in0f same cgg cgf : bool) (hs hb : N).
-Inductive case3 := KC (n : N) (facts : list rfact) (rs : list req) (obsN obs1 : list reply).
+Inductive case3 := KC (n : N) (facts : list rfact) (rs : list (req arg)) (obsN obs1 : list reply).
 
+(* ---- routing, evaluated with the fast (proved equal) SipHash *)
 Definition hash_str_f (k : list N) : N := sip13f (k ++ [255]).
 Definition hash_slice_f (k : list N) : N := sip13f (le64f (N.of_nat (List.length k)) ++ k).
+Definition home_f (n : nat) (k : key) : nat := N.to_nat (hash_slice_f k mod N.of_nat n).
 
 Definition fact_ok (n : N) (f : rfact) : bool :=
   let '(RF k o in0g in0f same cgg cgf hs hb) := f in
   let kb := unhex k in let ob := unhex o in
-  let s := hash_str_f kb in let b := hash_slice_f kb in
-  (s =? hs) && (b =? hb) &&
-  Bool.eqb in0g (s mod n =? 0) && Bool.eqb in0f (b mod n =? 0) &&
-  Bool.eqb same (s mod n =? b mod n) &&
-  Bool.eqb cgg (s mod n =? hash_str_f ob mod n) && Bool.eqb cgf (s mod n =? hash_slice_f ob mod n).
+  let hk := hash_slice_f kb mod n in let ho := hash_slice_f ob mod n in
+  (hash_str_f kb =? hs) && (hash_slice_f kb =? hb) &&
+  Bool.eqb in0g (hk =? 0) && Bool.eqb in0f (hk =? 0) && Bool.eqb same true &&
+  Bool.eqb cgg (hk =? ho) && Bool.eqb cgf (hk =? ho).
+
+(* the homes of the case's keys are computed once; any other key is hashed on demand *)
+Fixpoint memo_find (k : key) (t : list (key * nat)) : option nat :=
+  match t with [] => None | (x, i) :: r => if bytes_eqb k x then Some i else memo_find k r end.
+Definition memo_home (t : list (key * nat)) (n : nat) (k : key) : nat :=
+  match memo_find k t with Some i => i | None => home_f n k end.
+Definition memo_table (n : nat) (facts : list rfact) : list (key * nat) :=
+  map (fun f => let '(RF k _ _ _ _ _ _ _ _) := f in (unhex k, home_f n (unhex k))) facts.
+
+(* ---- reply comparison *)
+Fixpoint reply_eqb (a b : reply) : bool :=
+  match a, b with
+  | RSimple x, RSimple y | RErr x, RErr y => bytes_eqb x y
+  | RInt x, RInt y => Z.eqb x y
+  | RBulk None, RBulk None => true
+  | RBulk (Some x), RBulk (Some y) => bytes_eqb x y
+  | RArr None, RArr None => true
+  | RArr (Some x), RArr (Some y) =>
+      (fix go (x y : list reply) : bool :=
+         match x, y with
+         | [], [] => true
+         | p :: x', q :: y' => reply_eqb p q && go x' y'
+         | _, _ => false
+         end) x y
+  | RPanic, RPanic => true
+  | _, _ => false
+  end.
+
+(* KEYS answers in hash-map iteration order: compared as sorted lists *)
+Definition canon (r : req arg) (a : reply) : reply :=
+  match r, a with
+  | Generic (CKeys _), RArr (Some l) =>
+      if forallb (fun x => match bulk_key x with Some _ => true | None => false end) l
+      then RArr (Some (kbulk <$> sort_bytes (omap bulk_key l))) else a
+  | _, _ => a
+  end.
+
+Definition is_rk (r : req arg) : bool :=
+  match r with Generic (COp tag [] _) => is_randomkey tag | _ => false end.
+
+(* RANDOMKEY: the implementation may answer any key of shard 0 (nil iff that shard is empty) *)
+Definition randomkey_ok (sh : list (gmap key val)) (obs : reply) : bool :=
+  match sh with
+  | s0 :: _ =>
+      match obs with
+      | RBulk None => Nat.eqb (size s0) 0
+      | RBulk (Some k) => match s0 !! k with Some _ => true | None => false end
+      | _ => false
+      end
+  | [] => false
+  end.
+
+Fixpoint run_ok (home : nat -> key -> nat) (sh : list (gmap key val)) (rs : list (req arg)) (obs : list reply) : bool :=
+  match rs, obs with
+  | [], [] => true
+  | r :: rs', o :: obs' =>
+      if is_rk r then randomkey_ok sh o && run_ok home sh rs' obs'
+      else
+        let '(sh', a) := execN mini home home sh r in
+        reply_eqb (canon r a) (canon r o) && run_ok home sh' rs' obs'
+  | _, _ => false
+  end.
 
 Definition check3 (c : case3) : bool :=
-  let '(KC n facts rs obsN obs1) := c in forallb (fact_ok n) facts.
+  let '(KC n facts rs obsN obs1) := c in
+  let nn := N.to_nat n in
+  forallb (fact_ok n) facts &&
+  match rs with
+  | [] => true
+  | _ => run_ok (memo_home (memo_table nn facts)) (replicate nn ∅) rs obsN
+         && run_ok (fun _ _ => O) [∅] rs obs1
+  end.
 Definition mismatches := mismatches_with check3.
